@@ -159,7 +159,7 @@ func main() {
 			add := func(fp, f string, a ...any) {
 				viols = append(viols, explore.Violation{Fingerprint: "c08/" + fp, Detail: fmt.Sprintf("start=%s: ", start) + fmt.Sprintf(f, a...)})
 			}
-			s := vrt.Run(vrt.Options{Start: w.At[start].Add(time.Second), MaxSteps: 2000000, Watchdog: 30 * time.Second, Until: w.At[start].Add(6 * time.Hour)}, func() {
+			s := vrt.Run(vrt.Options{Start: w.At[start].Add(time.Second), MaxSteps: 2000000, Watchdog: 60 * time.Second, Until: w.At[start].Add(6 * time.Hour)}, func() {
 				ctx := context.Background()
 				st, err := dkg.NewDKGStore(dir)
 				if err != nil {
